@@ -22,6 +22,17 @@ locking from one row to the next*.  Two things follow that a functional reading 
     (a variable may clip or fill its *own* value, never the caller's array, which somebody else may be reading).
     The case carries {"layout": name}; `arrays_for` / `matrix_for` rebuild the buffers from the rows, falling back to
     separate arrays when the rows of a (minimised) case do not have the structure the layout needs.
+
+`no value per row`
+    "all engines": an engine may hold output variables and rule blocks that are switched off, and output variables that no
+    rule concludes.  After a batch such an output variable holds ONE value (NaN, its default or its previous value) whatever
+    the number of rows.  When that is true of EVERY output variable - all of them disabled, every rule block disabled, both,
+    no enabled rule concluding any of them, or (an antecedent over a disabled input variable has degree 0) every input
+    variable disabled - nothing the outputs hold tells how many rows the batch had; the batch still has N rows, and
+    `Engine.output_values` / `Engine.values` still show one row per row of the inputs (row by row they do).  The family takes
+    engines of the ordinary generator and switches off what the variant names, leaving the rest as drawn; batches of 1..8
+    rows, sometimes after an earlier call.  Cases have the ordinary shape and are judged by the ordinary comparison, which
+    includes the shapes and the rows of `output_values` and `values` (`c02.same_tables`).
 """
 from __future__ import annotations
 
@@ -224,3 +235,50 @@ def gen_layout_cases(ctx):
             own = [gen_signal(rng, desc, n) for _ in range(k)]
             rows = [[own[j][r] for j in range(k)] for r in range(n)]
         yield {"engine": desc, "rows": rows, "layout": layout}
+
+
+NO_ROW_VARIANTS = ["outputs-off", "blocks-off", "outputs-and-blocks-off", "unconcluded", "unconcluded-only", "rules-off",
+                   "inputs-off"]
+
+
+def gen_no_value_per_row_cases(ctx):
+    """engines of the ordinary generator in which (some or all) output variables receive no value per row"""
+    import copy
+    rng = ctx.rng
+    for i in range(ctx.scale(42, 420)):
+        variant = NO_ROW_VARIANTS[i % len(NO_ROW_VARIANTS)]
+        desc = G.gen_engine(rng, activation="general", n_in=rng.choice([1, 2, 2, 3]))
+        if variant in ("outputs-off", "outputs-and-blocks-off"):
+            for o in desc["outputs"]:
+                o["enabled"] = False
+        if variant in ("blocks-off", "outputs-and-blocks-off"):
+            for b in desc["blocks"]:
+                b["enabled"] = False
+        if variant in ("unconcluded", "unconcluded-only"):
+            # one more output variable, enabled, that no rule concludes (the others as drawn / switched off)
+            extra = copy.deepcopy(rng.choice(desc["outputs"]))
+            extra["name"] = f"out{len(desc['outputs'])}"
+            extra["enabled"] = True
+            for t in extra["terms"]:
+                t["name"] = t["name"] + "x"
+            desc["outputs"].insert(rng.randint(0, len(desc["outputs"])), extra)
+            if variant == "unconcluded-only":
+                for o in desc["outputs"]:
+                    if o is not extra:
+                        o["enabled"] = False
+        if variant == "rules-off":
+            for b in desc["blocks"]:
+                for r in b["rules"]:
+                    r["enabled"] = False
+        if variant == "inputs-off":
+            for v in desc["inputs"]:
+                v["enabled"] = False
+        for o in desc["outputs"]:
+            # the single value is NaN, the default or the previous value: every setting is in the quantifier
+            if rng.random() < 0.4:
+                o["lock_previous"] = rng.random() < 0.6
+        n = rng.choice([1, 2, 2, 3, 4, 5, 8])
+        case = {"engine": desc, "rows": G.gen_rows(rng, desc, n), "family": "no value per row: " + variant}
+        if rng.random() < 0.3:
+            case["first"] = G.gen_rows(rng, desc, rng.choice([1, 2, 3]), special=False)
+        yield case
